@@ -18,6 +18,11 @@ fn show(r: &Option<Option<PngImage>>) -> String {
 
 /// an image biased towards what the given reduction looks at
 fn gen_for(rng: &mut Rng, op: &str, max_dim: u32) -> (HImg, String) {
+    if matches!(op, "dropalpha" | "cleanalpha" | "toindexed" | "rgb2gray") && rng.chance(1, 10) {
+        let (rct, rd) = (*rng.choose(&[4u8, 6]), *rng.choose(&[8u8, 8, 16]));
+        let (g, info) = gen_ramp(rng, rct, rd);
+        return (g.pack(rng.chance(1, 4)), info.class);
+    }
     let (w, h) = gen_dims(rng, max_dim);
     let pick = |rng: &mut Rng, pairs: &[(u8, u8)]| *rng.choose(pairs);
     let (ct, depth) = match op {
